@@ -139,6 +139,16 @@ def near_valid(gen, rng, n):
     out = []
     while len(out) < n:
         d = gen.description(size=rng.random() * 0.6)
+        if d["mappings"] and rng.random() < 0.12:
+            # a legal but very long mapping name without a blank (error texts quote it): combined with every invalidation below
+            i = rng.randrange(len(d["mappings"]))
+            old = d["mappings"][i]["name"]
+            pat, ln = rng.choice([b"M", b"x_", b"\xc3\xa9"]), rng.choice([150, 198, 199, 200, 201, 255, 256, 1000, 5000])
+            new = (pat * 3000)[:ln - (ln % 2 if len(pat) == 2 else 0)]
+            if all(m["name"] != new for m in d["mappings"]):
+                d["mappings"][i]["name"] = new
+                if d.get("defmap") == old and not any(m["name"] == old for m in d["mappings"]):
+                    d["defmap"] = new
         invs = pg.invalidations(d, rng)
         paths = field_paths(d)
         for _ in range(6):
